@@ -400,3 +400,19 @@ package hotkey
 //@   ensures @registered result != nil && has(c.counters, name) && c.counters[name] == result
 //@   ensures @counters-registered forall n string :: has(c.counters, n) ==> c.counters[n] != nil && cinvmap(c.counters[n])
 //@   ensures @new-counters-are-empty-and-sized-by-the-collector !old(has(c.counters, name)) ==> fresh(result) && cwf(result) && result.capacity == c.capacity && len(result.items) == 0
+
+// ---- C19: the collector's loop runs each step on its own ticker and nothing after stop -------------------------
+
+//@ func (*Collector).Run
+//@   prop C19
+//@   requires c != nil
+//@   modifies all, latchedkeys, sortperm
+//@   callpre collect @collection-runs-on-the-collect-ticker waitedfor(collectTicker.C)
+//@   callpre evictStale @eviction-runs-on-the-evict-ticker waitedfor(evictTicker.C)
+//@   loop 0 assume reportwf(c.keys) && len(c.keys) <= int(c.capacity) && (forall n string :: has(c.counters, n) ==> c.counters[n] != nil && cinvmap(c.counters[n])) && nonnilkeys(c.keys) && distinctkeys(c.keys) && sortedkeys(c.keys)
+
+//@ func (*logrithmCounter).Value
+//@   prop C19
+//@   requires c != nil
+//@   modifies nothing
+//@   ensures @the-stored-heat result == c.val
